@@ -27,6 +27,12 @@ unsafe impl GlobalAlloc for Counting {
         System.alloc(layout)
     }
     unsafe fn dealloc(&self, ptr: *mut u8, layout: Layout) {
+        // freed tables and working buffers are overwritten before they go back to the system: code that still reads them
+        // through a dangling reference (undefined behaviour whose symptom would otherwise depend on the allocator's mood)
+        // then reads 0xDD..., which shows as a wrong digest or an index panic
+        if layout.size() >= 4096 {
+            std::ptr::write_bytes(ptr, 0xDD, layout.size());
+        }
         System.dealloc(ptr, layout)
     }
     unsafe fn alloc_zeroed(&self, layout: Layout) -> *mut u8 {
